@@ -51,7 +51,7 @@ func (m *Mutex) Unlock() {
 		sim.Fatal("sync: unlock of unlocked mutex")
 	}
 	m.m.Unlock()
-	sim.Progress()
+	sim.AfterUnlock()
 }
 
 // RWMutex
@@ -86,7 +86,7 @@ func (m *RWMutex) Unlock() {
 		sim.Fatal("sync: Unlock of unlocked RWMutex")
 	}
 	m.m.Unlock()
-	sim.Progress()
+	sim.AfterUnlock()
 }
 
 func (m *RWMutex) RUnlock() {
@@ -95,7 +95,7 @@ func (m *RWMutex) RUnlock() {
 		sim.Fatal("sync: RUnlock of unlocked RWMutex")
 	}
 	m.m.RUnlock()
-	sim.Progress()
+	sim.AfterUnlock()
 }
 
 func (m *RWMutex) RLocker() Locker { return (*rlocker)(m) }
